@@ -33,7 +33,7 @@ func CheckOne(in string, keepWS bool) (kind, what, out string) {
 	return
 }
 
-var texts = []string{"t", " ", " t", "t ", " t ", "\n", "&amp;", "&lt;", "&#9;", "&#10;", "&apos;", "a &gt; b", "  ", "&e;", "t  u", "\u00a0", "\u3000 ", "\u0085", "t]]", "]", "&#60;", "&#38;", "&#x3C;b&#x3e;", "&#38;amp;", "&#38;#60;"} // the last three: Unicode spaces that are NOT XML white space
+var texts = []string{"t", " ", " t", "t ", " t ", "\n", "&amp;", "&lt;", "&#9;", "&#10;", "&apos;", "a &gt; b", "  ", "&e;", "t  u", "\u00a0", "\u3000 ", "\u0085", "t]]", "]", "&#60;", "&#38;", "&#x3C;b&#x3e;", "&#38;amp;", "&#38;#60;", "]]&gt;", "]]&#62;", "&gt;"} // the last three: Unicode spaces that are NOT XML white space
 var cdatas = []string{"<![CDATA[x]]>", "<![CDATA[ x]]>", "<![CDATA[x ]]>", "<![CDATA[<&>]]>", "<![CDATA[]]]]><![CDATA[>]]>", "<![CDATA[]]>", "<![CDATA[ ]]>", "<![CDATA[a]]b]]>", "<![CDATA[<<<<&&&&]]>", "<![CDATA[>y]]>", "<![CDATA[]>]]>"}
 var others = []string{"<!--c-->", "<!-- -->", "<?p d?>", "<?q d  e ?>", "<?r x=\"1\" y?>", "<b/>", "<b></b>", "<b> </b>", "<b>t</b>", "<b>\u00a0</b>", "<b x=\"1\"> t  u </b>", "<b ></b >", "<b\n/>"}
 
